@@ -139,6 +139,16 @@ def run_case(case, rec):
     n, pairs = case["n"], [tuple(p) for p in case["pairs"]]
     hist = case["history"]
     rec.mark_nontrivial(len(pairs) > 0 and len(hist) >= 2)
+    # a homologous molecule (same length and pairing, other letters) queried first in the same process: whatever
+    # the process remembers about it must not leak into the answers for this structure
+    if int(core.chash(case)[:2], 16) % 2 == 0 and n > 0:
+        sib = mon2d.make_bpseq(n, pairs, "".join("UCAG"[(3 * i + n) % 4] for i in range(n)))
+        try:
+            sib.dot_bracket, sib.fcfs, sib.without_pseudoknots(), sib.without_isolated()
+            if len(pairs) <= 6:
+                sib.all_dot_brackets
+        except Exception:
+            pass
     root = mon2d.make_bpseq(n, pairs)
     pool = [root]
     created = [_state(root)]
@@ -173,7 +183,13 @@ def run_case(case, rec):
                 wantpairs = _ref_derivation(f, op, fresh)
                 if wantpairs is not None:
                     ans_pairs = _pairs_of_text(want)
-                    rec.check(f"{op}.exact", ans_pairs == wantpairs, lambda: det(step, {"op": op, "got": sorted(ans_pairs), "want": sorted(wantpairs)}))
+                    # every line of the derived BPSEQ counts: both partners of a pair must name each other
+                    ans_map = _pairmap_of_text(want)
+                    want_map = {}
+                    for i, j in wantpairs:
+                        want_map[i], want_map[j] = j, i
+                    rec.check(f"{op}.exact", ans_pairs == wantpairs and ans_map == want_map,
+                              lambda: det(step, {"op": op, "got": sorted(ans_map.items()), "want": sorted(want_map.items())}))
                     seq_ok = [l.split()[1] for l in want.splitlines()] == list(f["seq"]) if want else f["n"] == 0
                     rec.check(f"{op}.sequence-unchanged", seq_ok, lambda: det(step, {"op": op}))
         if derived is not None and derived is not obj:
@@ -211,6 +227,15 @@ def _pairs_of_text(text):
         i, j = int(i), int(j)
         if j and i < j:
             out.add((i, j))
+    return out
+
+
+def _pairmap_of_text(text):
+    out = {}
+    for line in text.splitlines():
+        i, _, j = line.split()
+        if int(j):
+            out[int(i)] = int(j)
     return out
 
 
